@@ -1106,111 +1106,6 @@ Lemma U1_conn_established : forall n s, U1 s -> U1 (fst (conn_established n s)).
 Proof. intros; name_result; unfold conn_established, ret; cases; leaf; eauto 30 with u1db. Qed.
 #[export] Hint Resolve U1_conn_established : u1db.
 
-(* ================================================================== the phases of run_once *)
-Definition ph_pre (rd0 : rdev) (s0 : state) : state :=
-  match rd0, st s0 with
-  | RdNone, _ => s0
-  | _, Disconnected => s0
-  | _, _ => set_rxq (rxq s0 ++ [rd0]) s0
-  end.
-Definition ph_reset (s1 : state) : state :=
-  if reset_parser s1 then set_ps PDepth0 (set_reset_parser false s1) else s1.
-Definition ph_watch (now : Z) (s3 : state) : R :=
-  match st s3 with
-  | Connecting =>
-      if now - stamp s3 <=? CONNECT_TIMEOUT then ret s3
-      else let '(s', o', ok) := connect_next now s3 in
-           if ok then (s', o')
-           else
-             let s'' := set_neg_done false (set_st Disconnected (set_err ETIMEDOUT s')) in
-             (reset_sm_for_reconnect s'', o' ++ [ODisconnect ETIMEDOUT (stream_error s'')])
-  | _ => ret s3
-  end.
-Definition ph_ready (s4 : state) : bool :=
-  match st s4 with
-  | Connecting => match cur_ep s4 with EpHang => false | _ => true end
-  | Connected => (match rxq s4 with [] => false | _ => true end) || negb (Nat.eqb (List.length (sendq s4)) 0)
-  | Disconnected => false
-  end.
-Definition ph_io (now : Z) (s4 : state) : R :=
-  match st s4 with
-  | Connecting =>
-      match cur_ep s4 with
-      | EpAccept => conn_established now (set_st Connected s4)
-      | EpLate =>
-          let '(s', o', ok) := connect_next now s4 in
-          if ok then (s', o')
-          else let s'' := set_neg_done false (set_st Disconnected (set_err (-1) s')) in
-               (reset_sm_for_reconnect s'', o' ++ [ODisconnect (-1) (stream_error s'')])
-      | _ => ret s4
-      end
-  | Connected =>
-      let rd := match rxq s4 with [] => RdNone | x :: _ => x end in
-      let s4 := set_rxq (tl (rxq s4)) s4 in
-      match rd with
-      | RdNone => ret s4
-      | RdChunk its =>
-          let '(s', o', bad) := feed_items now its s4 in
-          if bad then (send_gated WStreamErr false false s', o') else (s', o')
-      | RdClose =>
-          if tls_present s4 then conn_disconnect (set_err ECONNRESET s4)
-          else conn_disconnect (set_err ECONNRESET s4)
-      | RdReset => conn_disconnect (set_err ECONNRESET s4)
-      end
-  | Disconnected => ret s4
-  end.
-
-Lemma run_once_eq : forall now rd0 s0, run_once now rd0 s0 =
-  if crashed s0 then ret s0 else
-  let s := ph_pre rd0 s0 in
-  let '(s1, o1) := send_phase s in
-  if crashed s1 then (s1, o1) else
-  let s2 := ph_reset s1 in
-  let '(s3, o3) := fire_timed now s2 in
-  if crashed s3 then (s3, o1 ++ o3) else
-  let '(s4, o4) := ph_watch now s3 in
-  if negb (ph_ready s4) then (s4, o1 ++ o3 ++ o4 ++ [OIter]) else
-  let '(s5, o5) := ph_io now s4 in
-  if crashed s5 then (s5, o1 ++ o3 ++ o4 ++ o5) else
-  let '(s6, o6) := fire_timed now s5 in
-  (s6, o1 ++ o3 ++ o4 ++ o5 ++ o6 ++ [OIter]).
-Proof. reflexivity. Qed.
-
-Lemma run_once_ind : forall (P1 P2 P3 P4 P5 P6 Rr : state -> list out -> Prop) n rd s0,
-  (crashed s0 = true -> Rr s0 []) ->
-  (crashed s0 = false -> P1 (fst (send_phase (ph_pre rd s0))) (snd (send_phase (ph_pre rd s0)))) ->
-  (forall s o, P1 s o -> Rr s o) ->
-  (forall s o, P1 s o -> P2 (ph_reset s) o) ->
-  (forall s o, P2 s o -> P3 (fst (fire_timed n s)) (o ++ snd (fire_timed n s))) ->
-  (forall s o, P3 s o -> Rr s o) ->
-  (forall s o, P3 s o -> P4 (fst (ph_watch n s)) (o ++ snd (ph_watch n s))) ->
-  (forall s o, P4 s o -> Rr s (o ++ [OIter])) ->
-  (forall s o, P4 s o -> P5 (fst (ph_io n s)) (o ++ snd (ph_io n s))) ->
-  (forall s o, P5 s o -> Rr s o) ->
-  (forall s o, P5 s o -> P6 (fst (fire_timed n s)) (o ++ snd (fire_timed n s))) ->
-  (forall s o, P6 s o -> Rr s (o ++ [OIter])) ->
-  Rr (fst (run_once n rd s0)) (snd (run_once n rd s0)).
-Proof.
-  intros P1 P2 P3 P4 P5 P6 Rr n rd s0 Hc H1 H1r H2 H3 H3r H4 H4r H5 H5r H6 H6r.
-  rewrite run_once_eq. destruct (crashed s0) eqn:C; [exact (Hc eq_refl)|]. specialize (H1 eq_refl). cbv zeta.
-  destruct (send_phase (ph_pre rd s0)) as [s1 o1]. cbn [fst snd] in H1.
-  destruct (crashed s1); [apply H1r; exact H1|].
-  pose proof (H3 _ _ (H2 _ _ H1)) as K3. destruct (fire_timed n (ph_reset s1)) as [s3 o3]. cbn [fst snd] in *.
-  destruct (crashed s3); [apply H3r; exact K3|].
-  pose proof (H4 _ _ K3) as K4. destruct (ph_watch n s3) as [s4 o4]. cbn [fst snd] in *.
-  destruct (negb (ph_ready s4)).
-  { replace (o1 ++ o3 ++ o4 ++ [OIter]) with (((o1 ++ o3) ++ o4) ++ [OIter]) by (rewrite <- !app_assoc; reflexivity).
-    apply H4r; exact K4. }
-  pose proof (H5 _ _ K4) as K5. destruct (ph_io n s4) as [s5 o5]. cbn [fst snd] in *.
-  destruct (crashed s5).
-  { replace (o1 ++ o3 ++ o4 ++ o5) with (((o1 ++ o3) ++ o4) ++ o5) by (rewrite <- !app_assoc; reflexivity).
-    apply H5r; exact K5. }
-  pose proof (H6 _ _ K5) as K6. destruct (fire_timed n s5) as [s6 o6]. cbn [fst snd] in *.
-  replace (o1 ++ o3 ++ o4 ++ o5 ++ o6 ++ [OIter]) with (((((o1 ++ o3) ++ o4) ++ o5) ++ o6) ++ [OIter])
-    by (rewrite <- !app_assoc; reflexivity).
-  apply H6r; exact K6.
-Qed.
-
 Lemma Tr_ph_watch : forall n s0 s o, Tr s0 s o -> Tr s0 (fst (ph_watch n s)) (o ++ snd (ph_watch n s)).
 Proof. intros; name_result; unfold ph_watch, ret; cases; leaf; eauto 30 with trdb. Qed.
 (* the read/connect phase: Tr from its start state, or - when the TCP connect completes - from that
@@ -1312,18 +1207,6 @@ Proof.
   - intros s1 o H H'. apply H. rewrite tls_out_app in H'. cbn in H'. rewrite orb_false_r in H'. exact H'.
 Qed.
 
-(* step-level helpers *)
-Lemma step_eq : forall s o, step s o = (note_outs (snd (step0 s o)) (fst (step0 s o)), snd (step0 s o)).
-Proof. intros; unfold step; destruct (step0 s o); reflexivity. Qed.
-Lemma check_run_inv : forall (ok : state -> op -> state -> list out -> bool) (Inv : state -> Prop),
-  (forall s o, Inv s -> Inv (fst (step s o))) ->
-  (forall s o, Inv s -> ok s o (fst (step s o)) (snd (step s o)) = true) ->
-  forall ops s, Inv s -> check_run ok s ops = true.
-Proof.
-  intros ok Inv Hp Ho. induction ops as [|o r IH]; intros s Hs; cbn [check_run]; auto.
-  specialize (Hp s o Hs). specialize (Ho s o Hs). destruct (step s o) as [s' outs]. cbn [fst snd] in *.
-  rewrite Ho. cbn. auto.
-Qed.
 
 Lemma nt_conn_connect : forall n t s, forallb nt (snd (fst (conn_connect n t s))) = true.
 Proof.
